@@ -31,7 +31,10 @@ GEN = ["Quant"]
 RULE = ("shortest_int: multisets over small alphabets (heavy ties), dyadic grids finer than the 1e-10 tie tolerance, Gaussian/uniform "
         "floats, every lag 0..n-1 via p=(k+1/2)*100/n and boundary percents (dyadic p with n*p/100 integral, 99.99); ADC: exact dyadic "
         "records with power-of-two range (codes compared exactly), Gaussian/uniform/sinusoidal/quantised records of length 2..2^17 "
-        "(>= 10^4 so that 99.99% excludes outliers), n in 1..12, both otype values, ndarray and electrical_signal input. "
+        "(>= 10^4 so that 99.99% excludes outliers), n in 1..12, both otype values, ndarray and electrical_signal input, containers "
+        "with a separate noise array (0.3x..3x the signal swing; clauses evaluated on signal+noise), quantised records stored as "
+        "int8/int16/int32/uint8/uint16, both within and beyond the span the dtype's own arithmetic can hold (full-range records, "
+        "unsigned records with samples below V_min). "
         "non-trivial = accepted call; distinct by (kind, data digest, p | n, otype)")
 PARTIAL = [
     "the float evaluation of lag = int(len*percent/100) is tied to floor(n*p/100) by the differential run only (p is read as the "
@@ -111,6 +114,15 @@ def make_record(spec):
     elif dist == "quantised":
         L, step = spec.get("levels", 8), spec.get("step", 0.25)
         xs = [step * r.randrange(L) for _ in range(N)]
+    elif dist == "intq":
+        lo, hi, g = spec["lo"], spec["hi"], spec.get("grid", 1)
+        xs = [lo + g * r.randrange((hi - lo) // g + 1) for _ in range(N)]
+        xs[r.randrange(N)] = lo
+        xs[r.randrange(N)] = hi
+        if lo not in xs:
+            xs[0] = lo
+        if hi not in xs:
+            xs[-1] = hi
     elif dist == "dyadic":
         # exact record: bulk on a 2^-m grid inside [a, a+2^k] with both ends present, plus `out` far outliers on one side
         m, k, a = spec["m"], spec["k"], spec["a"]
@@ -133,6 +145,19 @@ def make_record(spec):
     for i, v in spec.get("outliers", []):
         xs[i % N] = v
     return [float(v) for v in xs]
+
+
+INT_DTYPES = {"int8": (-128, 127), "int16": (-32768, 32767), "int32": (-2 ** 31, 2 ** 31 - 1), "uint8": (0, 255),
+              "uint16": (0, 65535)}
+
+
+def effective_record(case):
+    """the samples the ADC has to quantise: the stored signal (in its dtype) plus the container's separate noise"""
+    xs = make_record(case["spec"])
+    if case.get("noise") is not None:
+        ns = make_record(case["noise"])
+        xs = [a + b for a, b in zip(xs, ns)]
+    return xs
 
 
 # ---------------------------------------------------------------------------------------------------------------
@@ -251,6 +276,60 @@ def gen_cases(rng, tier):
             exact = False
         cases.append({"kind": "adc", "spec": spec, "n": nb, "otype": ot, "exact": exact,
                       "input": rng.choice(["ndarray", "electrical_signal"])})
+    # directed: containers carrying a separate noise array comparable to / larger than the signal swing
+    for j in range(16 if not thorough else 120):
+        N = rng.choice([64, 500, 4096, 9999, 10000, 20000]) if j % 4 else rng.choice([10000, 12345, 20000])
+        amp = 10 ** rng.uniform(-1, 1)
+        sig = rng.choice([{"dist": "sine", "N": N, "seed": rng.getrandbits(32), "amp": amp, "off": rng.uniform(-1, 1),
+                           "cycles": rng.uniform(1, 40)},
+                          {"dist": "quantised", "N": N, "seed": rng.getrandbits(32), "levels": rng.randint(2, 8), "step": amp},
+                          {"dist": "uniform", "N": N, "seed": rng.getrandbits(32), "a": -amp, "b": amp}])
+        noise = {"dist": "gauss", "N": N, "seed": rng.getrandbits(32), "mu": 0.0, "sigma": amp * rng.choice([0.3, 1.0, 3.0])}
+        cases.append({"kind": "adc", "spec": sig, "noise": noise, "n": rng.choice([1, 3, 8, 8, 12]), "otype": ["n", "v"][j % 2],
+                      "exact": False, "input": "electrical_signal", "directed": "noisy-container"})
+    # directed: quantised records stored in narrow integer dtypes (inside the span where the dtype's own arithmetic is exact)
+    spans = {"int8": [(-50, 50), (-20, 40), (0, 100)], "int16": [(-1000, 1000), (-16000, 16000), (0, 30000)],
+             "int32": [(-10 ** 6, 10 ** 6), (-1000, 1000)], "uint8": [(0, 255), (10, 200)], "uint16": [(0, 65535), (100, 40000)]}
+    k = 0
+    for dt in ["int8", "int16", "int32", "uint8", "uint16"]:
+        for (lo, hi) in spans[dt]:
+            for nb in ([2, 5, 8, 12] if not thorough else [1, 2, 3, 5, 8, 10, 12]):
+                k += 1
+                N = rng.choice([5, 50, 500, 4000])
+                spec = {"dist": "intq", "N": N, "seed": rng.getrandbits(32), "lo": lo, "hi": hi,
+                        "grid": rng.choice([1, 1, max(1, (hi - lo) // rng.choice([4, 10, 50]))])}
+                cases.append({"kind": "adc", "spec": spec, "dtype": dt, "n": nb, "otype": ["n", "v"][k % 2], "exact": False,
+                              "input": ["ndarray", "electrical_signal"][(k // 2) % 2], "directed": "int-dtype"})
+    # wide-span integer records: the span exceeds what the dtype's own arithmetic can hold (repaired in /repo 127902b)
+    wide = [("int8", -128, 127), ("int8", -100, 120), ("int16", -30000, 30000), ("int16", -32768, 32767),
+            ("int32", -2 ** 31, 2 ** 31 - 1), ("int32", -2 * 10 ** 9, 2 * 10 ** 9), ("uint8", 0, 255), ("uint16", 0, 65535)]
+    for dt, lo, hi in wide:
+        for nb in ([2, 3, 8] if not thorough else [1, 2, 3, 5, 8, 12]):
+            k += 1
+            N = rng.choice([3, 5, 50, 500])
+            spec = {"dist": "intq", "N": N, "seed": rng.getrandbits(32), "lo": lo, "hi": hi}
+            cases.append({"kind": "adc", "spec": spec, "dtype": dt, "n": nb, "otype": ["n", "v"][k % 2], "exact": False,
+                          "input": ["ndarray", "electrical_signal"][(k // 2) % 2], "directed": "int-dtype-wide"})
+    for dt, blo, bhi, outs in [("uint8", 50, 199, [0, 255, 254]), ("uint16", 1000, 60000, [0, 3, 65535]),
+                               ("int16", -100, 100, [-30000, 30000]), ("int8", -10, 10, [-128, 127]),
+                               ("int32", -1000, 1000, [-2 ** 31, 2 ** 31 - 1])]:     # long records, outliers beyond the dtype-safe span
+        for ot in ["n", "v"]:
+            N = rng.choice([10000, 20000])
+            spec = {"dist": "intq", "N": N, "seed": rng.getrandbits(32), "lo": blo, "hi": bhi,
+                    "outliers": [[5 + 2 * j, v] for j, v in enumerate(outs)]}
+            cases.append({"kind": "adc", "spec": spec, "dtype": dt, "n": rng.choice([2, 4, 8]), "otype": ot, "exact": False,
+                          "input": rng.choice(["ndarray", "electrical_signal"]), "directed": "int-dtype-wide"})
+    for dt, data in [("int8", [-128, -50, 0, 50, 127]), ("int16", [-30000, 0, 30000])]:
+        for ot in ["n", "v"]:
+            cases.append({"kind": "adc", "spec": {"data": data}, "dtype": dt, "n": 3 if dt == "int8" else 2, "otype": ot,
+                          "exact": False, "input": "ndarray", "directed": "int-dtype-wide"})
+    for dt, bulk, out in [("int16", 100, 5000), ("int8", 5, 40), ("int32", 1000, 10 ** 5)]:     # long signed records with outliers
+        for ot in ["n", "v"]:
+            N = rng.choice([10000, 20000])
+            spec = {"dist": "intq", "N": N, "seed": rng.getrandbits(32), "lo": -bulk, "hi": bulk,
+                    "outliers": [[rng.randrange(N), -out], [rng.randrange(N), out]]}
+            cases.append({"kind": "adc", "spec": spec, "dtype": dt, "n": rng.choice([2, 5, 8]), "otype": ot, "exact": False,
+                          "input": rng.choice(["ndarray", "electrical_signal"]), "directed": "int-dtype"})
     # directed: record lengths where 99.99 % of n is (or is next to) an exact integer, one clear extreme sample on each side
     for N in [10000, 20000, 10001, 9999] + ([30000, 50000] if thorough else []):
         for ot in ["n", "v"]:
@@ -298,8 +377,14 @@ def run_impl(case):
                 import opticomlib.devices as D
                 from opticomlib import electrical_signal
                 xs = make_record(case["spec"])
-                arr = np.array(xs, dtype=float)
-                arg = electrical_signal(arr) if case["input"] == "electrical_signal" else arr
+                dt = case.get("dtype", "float64")
+                arr = np.array([int(v) for v in xs], dtype=dt) if dt in INT_DTYPES else np.array(xs, dtype=float)
+                arr0 = arr.copy()
+                if case.get("noise") is not None:
+                    nz = np.array(make_record(case["noise"]), dtype=float)
+                    arg = electrical_signal(arr, nz)
+                else:
+                    arg = electrical_signal(arr) if case["input"] == "electrical_signal" else arr
                 spied = []
                 real = D.shortest_int
 
@@ -318,7 +403,7 @@ def run_impl(case):
                            shape=list(sig.shape), noise=None if out.noise is None else "present",
                            vmin=spied[0][1] if spied else None, vmax=spied[0][2] if spied else None,
                            percent=spied[0][0] if spied else None, n_range_calls=len(spied),
-                           input_unchanged=bool(np.array_equal(arr, np.array(xs, dtype=float))))
+                           input_unchanged=bool(np.array_equal(arr, arr0)), in_dtype=str(arr.dtype))
     except Timeout as e:
         res.update(status="timeout", detail=str(e))
     except Exception as e:  # noqa
@@ -338,7 +423,7 @@ def model_requests(case, res):
             return []
         d = [Fraction(float(v)) for v in case["data"]]
         return [f"quant.shortest {enc_rat(dec_frac(case['p']))} {len(d)} " + " ".join(enc_rat(v) for v in d)]
-    xs = make_record(case["spec"])
+    xs = effective_record(case)
     ot = case["otype"] if case["otype"] in ("v", "n") else "other"
     return [f"quant.adc {case['n']} {ot} {len(xs)} " + " ".join(enc_rat(Fraction(v)) for v in xs)]
 
@@ -395,7 +480,7 @@ def compare(case, res, reqs, replies):
         if not ok and not case["exact"]:
             # a half-step tie decided differently by float rounding of (s-Vmin)/(Vmax-Vmin)*(2^n-1)?
             if xs is None:
-                xs = make_record(case["spec"])
+                xs = effective_record(case)
             r = (Fraction(xs[i]) - vmin) / (vmax - vmin) * top
             near_tie = abs((r - math.floor(r)) - Fraction(1, 2)) < Fraction(1, 10 ** 9)
             dm = abs(m - Fraction(o)) if case["otype"] == "n" else abs(m - Fraction(o)) / step
@@ -461,8 +546,8 @@ def oracle(case, res):
         if res.get("mutated"):
             v.append(("C18:shortest_int:mutates", "input array modified"))
         return v + _sint_oracle(data, p, res["lo"], res["hi"], "shortest_int")
-    # ADC
-    xs = make_record(case["spec"])
+    # ADC: every clause is evaluated on the samples to be quantised (signal + the container's noise)
+    xs = effective_record(case)
     N, nb, ot = len(xs), case["n"], case["otype"]
     if ot not in ("v", "n") or N < 2:
         return v
@@ -554,12 +639,15 @@ def features(case, res):
         f.append("adc:otype=" + case["otype"])
         f.append("adc:input=" + case["input"])
         if case.get("directed"):
-            f.append("adc:directed-integral-lag")
+            f.append("adc:directed-" + str(case["directed"]))
+        f.append("adc:dtype=" + case.get("dtype", "float64"))
+        if case.get("noise") is not None:
+            f.append("adc:separate-noise")
         if res["status"] == "ok" and res["vmin"] is not None:
             if res["vmin"] == res["vmax"]:
                 f.append("adc:degenerate-range")
             else:
-                xs = make_record(spec)
+                xs = effective_record(case)
                 if any(x < res["vmin"] or x > res["vmax"] for x in xs):
                     f.append("adc:has-out-of-range-samples")
     return f
@@ -572,4 +660,4 @@ def nontrivial_key(case, res):
         return ("sint", tuple(case["data"]), case["p"]) if len(case["data"]) >= 2 else None
     if res.get("vmin") == res.get("vmax"):
         return None
-    return ("adc", str(sorted(case["spec"].items()))[:200], case["n"], case["otype"])
+    return ("adc", str(sorted(case["spec"].items()))[:200], str(case.get("noise"))[:80], case.get("dtype"), case["n"], case["otype"])
